@@ -41,7 +41,13 @@ KNOBS = {
 
 
 def gen(rs: int, tier: str, index: int) -> dict:
-    return gen_worker_script(rs, tier_knobs(KNOBS, tier, index))
+    kn = KNOBS
+    if index % 6 == 4:
+        # shutdown with a wait_tasks_timeout that expires while (sync, thread-pool) task functions are still running:
+        # whatever the worker does with them then, it must not acknowledge before the function has finished
+        kn = dict(KNOBS, W=[0.05, 0.2, 0.2, 1.0], N=[None, None, 1, 2, 3], p_stop=0.85, p_sync=0.34, p_crash=0.0, workers=[1],
+                  durations={"zero": 1, "tiny": 1, "short": 2, "medium": 4, "long": 5, "poll": 2})
+    return gen_worker_script(rs, tier_knobs(kn, tier, index))
 
 
 def oracle(script: dict, run: Any) -> List[Violation]:
@@ -132,7 +138,12 @@ def probes(script: dict, run: Any) -> Dict[str, int]:
     res = {"crash_between_exit_and_ack": 0, "redelivered": int(any(e[5].get("redelivery_of") is not None for e in h.kind("enqueue"))),
            "async_ack_with_latency": int(run.fault_counts.get("ack_delay", 0) > 0),
            "ack_after_failed_save": 0, "ack_without_save_noresult": 0,
-           "when_received_lost_on_crash": 0, "type_" + ack_type: 1}
+           "when_received_lost_on_crash": 0, "type_" + ack_type: 1, "returned_on_wait_tasks_timeout_with_running_function": 0}
+    for lr in h.kind("listen_return"):
+        for fe in h.kind("fn_enter"):
+            fx = h.first(fe[4], "fn_exit")
+            if fe[0] < lr[0] and (fx is None or fx[0] > lr[0]) and script["config"].get("W") is not None:
+                res["returned_on_wait_tasks_timeout_with_running_function"] = 1
     for c in h.kind("crash"):
         node = h.node_of(c[5]["w"], c[5]["gen"])
         for t in h.takes():
